@@ -316,6 +316,18 @@ fn build_public_batch_constraints(
     builder.register_public_inputs(&output_pis);
 }
 
+/// Verification hook: exposes the wrapper constraints so a replay harness can build the wrapper-only circuit
+/// over free child public-input targets (no recursive verification). Off unless `--features verif-hooks`.
+#[cfg(feature = "verif-hooks")]
+pub fn verif_build_public_batch_constraints(
+    builder: &mut CircuitBuilder<F, D>,
+    targets: &PublicBatchCircuitTargets,
+    n_inner: usize,
+    private_batch_num_leaves: usize,
+) {
+    build_public_batch_constraints(builder, targets, n_inner, private_batch_num_leaves)
+}
+
 #[cfg(test)]
 mod tests {
     use super::*;
